@@ -565,6 +565,36 @@ func C03UpdateValueReadsStaleFrame(q *cypher.RegularQuery) bool {
 			return true
 		}
 	}
+	// second form of the same root cause: a value that is a plain name rather than a property of an entity –
+	// a WITH alias or an UNWIND variable – is only rewritten when the update is rendered, by which time the
+	// name counts as materialized by the update's own frame (`set n.x = a` gives `… 'x', s2.i0 … from s0`)
+	patternVars := map[string]bool{}
+	for _, c := range cs {
+		if c.Match != nil {
+			for v := range c03PatternVariables(c.Match.Pattern) {
+				patternVars[v] = true
+			}
+		}
+	}
+	for _, c := range cs {
+		if c.Kind != "update" {
+			continue
+		}
+		stale := false
+		C03WalkModel(c.Node, func(node any, _ []any) bool {
+			if t, ok := node.(*cypher.SetItem); ok && t != nil {
+				for v := range c03VariablesIn(t.Right) {
+					if !patternVars[v] {
+						stale = true
+					}
+				}
+			}
+			return true
+		})
+		if stale {
+			return true
+		}
+	}
 	return false
 }
 
